@@ -39,6 +39,9 @@ package builder
 //@ props C16
 
 //@ func data/builder.sizedStore
+//@ prop C11
+//@ ensures size-is-the-stored-blocks-length: err == nil ==> result1 == blockLen(result0)
+//@ assumed size-is-the-stored-blocks-length
 //@ ensures write-failure-is-recorded: storeFailed <==> (old(storeFailed) || err != nil)
 //@ ensures err == nil ==> result0 != nil && stored(result0)
 //@ ensures monotone: forall l Ref :: old(stored(l)) ==> stored(l)
@@ -46,6 +49,8 @@ package builder
 //@ assigns stored(result0), storeFailed
 
 //@ func data/builder.BuildUnixFSSymlink
+//@ prop C11
+//@ ensures size-is-the-stored-blocks-length: err == nil ==> result1 == blockLen(result0)
 //@ ensures any-write-failure-fails-the-build: (err == nil ==> storeFailed == old(storeFailed)) && (old(storeFailed) ==> storeFailed)
 //@ ensures error-implies-nil-link: err != nil ==> result0 == nil
 //@ ensures link-implies-stored: err == nil ==> result0 != nil && stored(result0)
@@ -235,5 +240,7 @@ package builder
 // Behavioural subtyping (io.Writer): hinput(w) is the byte string handed to w.Write so far; the
 // byte counter forwards every write and is itself a writer in that sense.
 //@ func (*data/builder.byteCounter).Write
+//@ prop C01 C11
 //@ domain not-wrapping-itself: bc.w != bc
+//@ ensures every-write-is-forwarded-unchanged: hinput(bc.w) == ite(old(hinput(bc.w)) == "", str(p), cat(old(hinput(bc.w)), str(p)))
 //@ at return ghost hinput(bc) = ite(hinput(bc) == "", str(p), cat(hinput(bc), str(p)))
